@@ -697,6 +697,7 @@ def run(P, R, tier):
     pairreset_rule(P, R)
     genmix_rule(P, R)
     heatpair_rule(P, R)
+    saveold_rule(P, R)
     R.undecided += ["conservation of the column inventory over shifts (mixing-factor arithmetic)", "bounded mixing / convexity",
                     "stagnant zones, multicomponent diffusion, boundary conditions, reactive solids"]
     R.rule("C11.shift", "in-place advective shift loops over the solution store walk against the copy direction (each source is read before it is overwritten)", minimum=2)
@@ -814,3 +815,39 @@ def heatpair_rule(P, R):
                                 file=f["file"], line=st[1], function=f["q"])
     if n < 2:
         R.anchor_missing(RULE, "mix_stag: only %d temperatures computed with heat_mix_f_* factors" % n)
+
+
+def saveold_rule(P, R):
+    """A column cell with CVODE kinetics: run_reactions first mixes the cell ("Do mix first"), integrates, and finally puts the cell's OLD
+    solution back in its place for the neighbours that have not been calculated yet (transport mixes every cell with the old content of
+    its neighbours).  The old solution is parked in the scratch entry save_old; the parking copy has to come before the first
+    statement of the block that can change solution i (set_and_run_wrapper / saver) - parked after the mix, the "old" solution the
+    neighbours see is the already mixed one and mass is created or lost."""
+    RULE = "C11.saveold"
+    R.rule(RULE, "run_reactions (CVODE): the cell's old solution is parked in save_old before the first statement that changes the cell", minimum=1)
+    f = P.one("Phreeqc::run_reactions")
+    n = 0
+    for blk in T.walk(f["body"]):
+        if blk[0] != "Compound":
+            continue
+        st = [x for x in blk[2] if T.is_node(x)]
+        if not any(x[0] == "Bin" and x[2] == "=" and T.text(T.strip_casts(x[3])) == "save_old" for x in st):
+            continue
+        park = changer = None
+        for k, x in enumerate(st):
+            if park is None and any(T.callee_name(c) == "Rxn_copy" and len(c[4]) == 3 and T.text(T.strip_casts(c[4][2])) == "save_old"
+                                    and "Rxn_solution_map" in T.text(c[4][0]) for c in T.calls(x)):
+                park = (k, x[1])
+            if changer is None and any(T.callee_name(c) in ("saver", "set_and_run_wrapper", "set_and_run") for c in T.calls(x)):
+                changer = (k, x[1])
+        if park is None and changer is None:
+            continue
+        n += 1
+        inst = "block@%d" % (blk[1] - f["line"])
+        if park is not None and (changer is None or park[0] < changer[0]):
+            R.ok(RULE, inst, "parked at line %d, first change of the cell at line %s" % (park[1], changer[1] if changer else "-"))
+        else:
+            R.violation(RULE, inst, "the old solution of the cell is parked in save_old at line %s, after the statement at line %d that mixes / saves the cell: the neighbours mix "
+                        "with the already mixed solution" % (park[1] if park else "(never)", changer[1]), file=f["file"], line=changer[1], function=f["q"])
+    if n < 1:
+        R.anchor_missing(RULE, "run_reactions: the block that sets save_old was not found")
